@@ -60,6 +60,16 @@ T('C11',
   'Bounded exhaustive model checking of the vertical structure: product of layer counts (1-100) x pressure ranges x planets x temperature letters x molecular-weight letters x 8 pressure sources (simple, array, file incl. reverse/units/columns) x 2 model families (quick: core product + deviations; thorough: full product); levels strictly decreasing with geometric-mean layers, altitude/thickness/gravity/scale height/density equal to the bottom-up hydrostatic reference, and every per-layer attribute, every generate_profiles() entry and every dataset written by store_profiles has exactly one entry per layer aligned by value with the reference.',
   'array/file sources N>=2; non-monotone levels derived from strongly irregular tabulated pressures are counted, not judged (statement premise: decreasing levels); unbound-atmosphere letters compared by value only; T and mu profiles are inputs (C12/C10); numpy/h5py trusted')
 
+T('C05',
+  'bounded exhaustive enumeration (E1) of the real FluxBinner/SimpleBinner/NativeBinner against an O(n*m) overlap-weight reference',
+  'Bounded exhaustive model checking of binning: every target bin [a,b] over the edge/centre/quarter lattice of 5 native-grid letters (uniform, log, constant-R, explicit widths with a gap, unequal widths) x n=2..6 x width None/explicit (1-bin binners, all bins at once in 3 orders, all ordered pairs, tilings with <=2 moved edges in all 6 orders, None/scalar target widths), all n! native permutations (n<=5 quick, <=6 thorough) with widths and errors permuted consistently, 1-D and 2-D spectra, errors None/constant/distinct/2-D; value, quadrature error, min/max bracket, constant, linearity, permutation invariance and returned grid are checked on every call; the histogram binner on all 2-/3-(4-)subsets x all native permutations; the native binner is the identity.',
+  'small scope n<=6 native points; numpy trusted; nothing demanded of target bins with zero total overlap; native bins with default widths are the symmetric mid-point-width bins; SimpleBinner only with ascending targets and no judgement of empty bins; states = case families, the enumerated bindown calls are counted in transitions')
+
+T('C17',
+  'bounded exhaustive enumeration (E1): all row permutations through all four real loaders against ref.observation plus differential against sorted rows plus binned fine-grid model',
+  'Bounded exhaustive model checking of observation loading: 4 wavelength spacings x n=2..4 (..6 thorough, 7 for the array source) x 3/4 columns x 3 width letters x {ArraySpectrum, ObservedSpectrum text file, TaurexSpectrum, taurex_hdf5_to_observation on a file written by HDF5Output}; for every one of the n! row permutations: ascending wavenumbers = 10000/wavelength, value/error/width still paired with their wavelength, width conversion (or mid-point derivation), bin edges in the wavelength domain, bit-identical to the sorted load, create_binner centres/widths, and a fine model binned with it equals the overlap reference element by element.',
+  'n<=7 rows, distinct wavelengths; h5py and numpy trusted; binEdges compared in the wavelength domain (the first-order wavenumber width is not required to reproduce them)')
+
 
 def main():
     props = [json.loads(l) for l in open(os.path.join(VERIF, 'properties.jsonl'))]
